@@ -48,9 +48,13 @@ def pairTable : List (Txt × Txt) :=
     37 State.activateProducer#0 · 45 State.processVotingContent#4 · 52 State.returnDeposit#0 ·
     56 State.processRevertToPOW#0 · 61 State.processCreateNFT#0 · 67 State.processNFTDestroyFromSideChain#1 ·
     70-73 State.processIllegalEvidence#1..4 · 74-77 State.countArbitratorsInactivityV3#0..3 ·
-    78 State.updateCRMemberInactiveCountV2#0 · 90 State.tryUpdateLastIrreversibleHeight#2 -/
+    78 State.updateCRMemberInactiveCountV2#0 · 90 State.tryUpdateLastIrreversibleHeight#2 ·
+    since captures must read the restored location: 11 Arbiters.UpdateNextArbitrators#1 (arbitrators.go:2309: the rollback
+    writes `oriHeight := height` into DPoSV2ActiveHeight instead of the old value math.MaxUint32 — a defect, recorded as
+    C21-dposv2-active-height) · 60 State.processRetVotesRewardRealWithdraw#0 (state.go:2677) ·
+    62 State.processDposV2ClaimRewardRealWithdraw#0 (state.go:2753) -/
 def expectedUnclassified : List Nat :=
-  [12, 13, 14, 15, 17, 22, 27, 28, 31, 32, 33, 36, 37, 45, 52, 56, 61, 67, 70, 71, 72, 73, 74, 75, 76, 77, 78, 90]
+  [11, 12, 13, 14, 15, 17, 22, 27, 28, 31, 32, 33, 36, 37, 45, 52, 56, 60, 61, 62, 67, 70, 71, 72, 73, 74, 75, 76, 77, 78, 90]
 
 /-- T-gen, total over the source: every `History.Append` site of dpos/state is syntactically well
     paired except exactly the listed ones. -/
